@@ -455,6 +455,12 @@ func (x *Exec) havocTarget(env *SpecEnv, st *State, mt ModTarget) {
 		}
 		idx, _ := findField(su, t.Name)
 		if idx < 0 {
+			if ga := x.ghostFieldAddr(pt, t.Name, base); ga != nil {
+				nv := x.declare("mg", x.S.SortOf(ga.RootT))
+				x.assume(x.typeInv(nv, ga.RootT, 0))
+				x.storeAddr(st, ga, nv)
+				return
+			}
 			panic(specErr("modifies %s: no such field", mt.Text))
 		}
 		a := x.fieldAddr(base, pt, idx)
